@@ -94,6 +94,27 @@ type parser struct {
 	prefixParseFns map[token.Type]prefixParseFn
 	infixParseFns  map[token.Type]infixParseFn
 	inForBlock     bool
+
+	depth     int  // nesting of expressions being parsed
+	abandoned bool // the nesting limit was hit: every further token is EOF
+}
+
+// maxNesting bounds how deeply expressions - groups, calls, indexes,
+// literals and the blocks of if, for and fn, which all come back to
+// parseExpression - may be nested. The parser recurses once per level; without
+// a bound a few megabytes of opening brackets exhaust the Go stack, which
+// ends the whole process with a fatal error instead of a syntax error.
+const maxNesting = 10000
+
+// abandon records that the code is nested too deeply and makes every
+// construct wind up as at the end of the input.
+func (p *parser) abandon() {
+	if !p.abandoned {
+		p.abandoned = true
+		p.errors = append(p.errors, fmt.Sprintf("line %d: code is nested deeper than %d levels", p.curToken.LineNumber, maxNesting))
+	}
+	p.curToken = token.Token{Type: token.EOF, LineNumber: p.curToken.LineNumber}
+	p.peekToken = p.curToken
 }
 
 func (p *parser) parseProgram() *ast.Program {
@@ -122,6 +143,9 @@ func (p *parser) parseProgram() *ast.Program {
 }
 
 func (p *parser) nextToken() {
+	if p.abandoned {
+		return
+	}
 	p.curToken = p.peekToken
 	p.curComment = p.peekComment
 	p.readPeekToken()
@@ -179,7 +203,10 @@ func (p *parser) parseStatement() ast.Statement {
 	case token.LET:
 		return p.parseLetStatement()
 	case token.S_START:
-		p.nextToken()
+		// any number of tag openers may stand in a row
+		for p.curTokenIs(token.S_START) {
+			p.nextToken()
+		}
 		return p.parseStatement()
 	case token.RETURN:
 		return p.parseReturnStatement(token.RETURN)
@@ -243,6 +270,13 @@ func (p *parser) parseExpressionStatement() *ast.ExpressionStatement {
 }
 
 func (p *parser) parseExpression(precedence int) ast.Expression {
+	p.depth++
+	defer func() { p.depth-- }()
+	if p.depth > maxNesting {
+		p.abandon()
+		return nil
+	}
+
 	prefix := p.prefixParseFns[p.curToken.Type]
 	if p.curTokenIs(token.LET) {
 		return nil
